@@ -281,9 +281,9 @@ def run(ctx):
     for eid, verdict in sorted(bad.items()):
         if eid in pe:
             e = pe[eid]
-            ctx.violation("parse.name.presentation_differs.%s" % e["_path"],
-                          "vector %s: reported name string does not un-escape to the reference labels: %s" %
-                          (e["_v"], e["_d"]), replay_content=_replay(vecs, e["_v"]))
+            _report_once(ctx, reported, "parse.name.presentation_differs.%s" % e["_path"],
+                         "vector %s: reported name string does not un-escape to the reference labels: %s" %
+                         (e["_v"], e["_d"]), _replay(vecs, e["_v"]))
         elif eid.startswith("n|"):
             ctx.violation("name.roundtrip.written_labels_differ.%s" % eid.split("|")[2],
                           "name %r: the bytes written from the reported presentation string do not decode to "
@@ -302,8 +302,8 @@ def run(ctx):
                           replay_content=__import__("json").dumps({"signature": sig, "id": eid, "op": "build",
                                                                    "rec": w["orig"], "written": w.get("hex")}))
         else:
-            ctx.violation("parse.name.presentation_roundtrip",
-                          "event %s: Unescape(reported string) differs from the wire labels (%s)" % (eid, verdict))
+            _report_once(ctx, reported, "parse.name.presentation_roundtrip",
+                         "event %s: Unescape(reported string) differs from the wire labels (%s)" % (eid, verdict), None)
     ctx.cov["traces_validated_against_impl"] = len(clean) - len(bad)
     if events:
         cl.corrupted_trace_selftest(ctx, "c04", clean[0])
